@@ -513,7 +513,11 @@ func (g *pgen) catches(e *genv) []zr.Catch {
 		if cn != "异常" || !g.o.faults {
 			body = append(body, zr.Show(zr.S("内容"), zr.ThisProp{Prop: "内容"}))
 		}
-		if g.r.Intn(2) == 0 {
+		if g.r.Intn(6) == 0 {
+			// the handler itself raises: an enclosing body (or nobody) has to deal with it
+			body = append(body, zr.Throw{Class: "异常", Args: []zr.Expr{zr.S(fmt.Sprintf("again%d", g.mark))}})
+			g.feat("handler-raises")
+		} else if g.r.Intn(2) == 0 {
 			body = append(body, zr.Return{E: intLit(-g.r.Intn(50) - 1)})
 			g.feat("handler-return")
 		} else {
@@ -590,6 +594,11 @@ func (g *pgen) genClass(isExc bool) (*zr.ClassDef, *zr.FuncDef, *classInfo) {
 		// make methods touch a property
 		p := ci.numProps[r.Intn(len(ci.numProps))]
 		pre := []zr.Stmt{zr.Set(zr.ThisProp{Prop: p}, zr.Bin{Op: "+", L: zr.ThisProp{Prop: p}, R: intLit(1 + r.Intn(3))})}
+		if r.Intn(2) == 0 {
+			// in-place update of a property that may still hold the type's default value
+			pre = []zr.Stmt{zr.ExprStmt{E: zr.MCall{Recv: zr.ThisProp{Prop: p}, Chain: []zr.CallPart{{Fn: []string{"自增", "自减"}[r.Intn(2)], Args: []zr.Expr{intLit(1 + r.Intn(3))}}}}}}
+			g.feat("in-place-property-update")
+		}
 		fd.Body = append(pre, fd.Body...)
 		cd.Methods = append(cd.Methods, fd)
 		ci.methods = append(ci.methods, fi)
